@@ -7,4 +7,6 @@ export CARGO_NET_OFFLINE=true RUSTFLAGS="--cfg libmctp_verif" CARGO_TARGET_DIR="
 ( cd coq && coq_makefile -f _CoqProject -o Makefile >/dev/null && timeout 3000 make -j16 )
 ( cd driver && coqc -R ../coq LM Extract.v >/dev/null && ocamlfind ocamlopt -O3 -w -a model.mli model.ml main.ml -o driver )
 ( cd harness && cargo build --offline --quiet && cargo build --offline --quiet --release )
+# the coverage-guided explorer (a search aid: the checks go on without it if it cannot be built)
+( cd fuzz && CARGO_TARGET_DIR="$PWD/../work/fuzz-target" cargo +nightly fuzz build --fuzz-dir "$PWD" -s none ops >/dev/null 2>&1 ) || echo "note: explorer not built"
 echo setup ok
